@@ -72,6 +72,24 @@ def type : PenAttr → PenAttrType
   | altfont | under | sizepos => .int
   | bold | italic | reverse | strike | blink => .bool
 
+/-- Width of the bit-field that stores the attribute's value (`Gen.PenLayout`, from `struct TickitPen`). -/
+def width : PenAttr → Nat
+  | fg => fgindex_width | bg => bgindex_width | bold => bold_width | under => under_width
+  | italic => italic_width | reverse => reverse_width | strike => strike_width
+  | altfont => altfont_width | blink => blink_width | sizepos => sizepos_width
+
+/-- Signedness of that bit-field. -/
+def signed : PenAttr → Bool
+  | fg => fgindex_signed | bg => bgindex_signed | bold => bold_signed | under => under_signed
+  | italic => italic_signed | reverse => reverse_signed | strike => strike_signed
+  | altfont => altfont_signed | blink => blink_signed | sizepos => sizepos_signed
+
+/-- A *representable value* of the attribute: one its bit-field can hold. -/
+def Representable (a : PenAttr) (v : Int) : Prop := Tickit.Representable a.width a.signed v
+
+instance (a : PenAttr) (v : Int) : Decidable (a.Representable v) := by
+  unfold PenAttr.Representable; exact inferInstance
+
 end PenAttr
 
 namespace PenAttrType
@@ -131,6 +149,14 @@ deriving DecidableEq, Repr, Inhabited
 
 namespace Pen
 open Gen.PenLayout
+
+/-- The raw content of the attribute's value bit-field. -/
+def rawField (p : Pen) : PenAttr → Int
+  | .fg => p.fgindex | .bg => p.bgindex | .bold => p.bold | .under => p.under | .italic => p.italic
+  | .reverse => p.reverse | .strike => p.strike | .altfont => p.altfont | .blink => p.blink | .sizepos => p.sizepos
+
+/-- The type invariant of the C struct: every value bit-field holds a value of its width (valid or not). -/
+def WF (p : Pen) : Prop := ∀ a : PenAttr, a.Representable (p.rawField a)
 
 /-- `tickit_pen_has_attr`. -/
 def hasAttr (p : Pen) : PenAttr → Bool
@@ -347,12 +373,9 @@ def descParseRgb8 (sc : Scanf) (p : Pen) (a : PenAttr) (desc : List UInt8) (hash
     | none => (true, p)
   | none => (true, p)
 
-/-- `tickit_pen_set_colour_attr_desc` (value effect and return value); `desc0` is the NUL-free
-    content of the C string. -/
-def setColourAttrDesc (sc : Scanf) (p : Pen) (a : PenAttr) (desc0 : List UInt8) : Bool × Pen :=
-  let isHi := desc0.take 3 == hiPrefix
-  let desc := if isHi then desc0.drop 3 else desc0
-  let hi : Int := if isHi then 8 else 0
+/-- The body of `tickit_pen_set_colour_attr_desc` after the `"hi-"` test: `desc` is what the pointer now points
+    at, `hi` is 8 or 0. -/
+def descCore (sc : Scanf) (p : Pen) (a : PenAttr) (desc : List UInt8) (hi : Int) : Bool × Pen :=
   let hashp : Option Nat := desc.findIdx? (· == 35)
   let len : Nat := match hashp with
     | some k => trimLen desc k
@@ -367,6 +390,39 @@ def setColourAttrDesc (sc : Scanf) (p : Pen) (a : PenAttr) (desc0 : List UInt8) 
       let val := if e.2 < 8 ∧ hi ≠ 0 then e.2 + hi else e.2
       descParseRgb8 sc (p.setColourAttr a val) a desc hashp
     | none => (false, p)
+
+/-- `tickit_pen_set_colour_attr_desc` (value effect and return value); `desc0` is the NUL-free
+    content of the C string. -/
+def setColourAttrDesc (sc : Scanf) (p : Pen) (a : PenAttr) (desc0 : List UInt8) : Bool × Pen :=
+  if desc0.take 3 == hiPrefix then descCore sc p a (desc0.drop 3) 8
+  else descCore sc p a desc0 0
+
+/-- What the description parser extracts from the string alone: `none` = rejected, otherwise the index and
+    the optional RGB8 that it passes to `set_colour_attr` / `set_colour_attr_rgb8` (`Proof/Pen.lean`,
+    `setColourAttrDesc_eq_parse`). -/
+def descParseCore (sc : Scanf) (desc : List UInt8) (hi : Int) : Option (Int × Option RGB8) :=
+  let hashp : Option Nat := desc.findIdx? (· == 35)
+  let len : Nat := match hashp with
+    | some k => trimLen desc k
+    | none => desc.length
+  let rgb : Option RGB8 := match hashp with
+    | some k => sc.scanRgb (desc.drop (k + 1))
+    | none => none
+  match sc.scanD desc with
+  | some val => if hi ≠ 0 ∧ val > 7 then none else some (val + hi, rgb)
+  | none =>
+    match colourNames.find? (fun e => namePrefixMatch desc e.1 len) with
+    | some e => some (if e.2 < 8 ∧ hi ≠ 0 then e.2 + hi else e.2, rgb)
+    | none => none
+
+def descParse (sc : Scanf) (desc0 : List UInt8) : Option (Int × Option RGB8) :=
+  if desc0.take 3 == hiPrefix then descParseCore sc (desc0.drop 3) 8 else descParseCore sc desc0 0
+
+/-- The direct calls a parsed description corresponds to. -/
+def applyParsed (p : Pen) (a : PenAttr) : Option (Int × Option RGB8) → Bool × Pen
+  | none => (false, p)
+  | some (idx, none) => (true, p.setColourAttr a idx)
+  | some (idx, some rgb) => (true, (p.setColourAttr a idx).setColourAttrRgb8 a rgb)
 
 end Pen
 
@@ -554,10 +610,7 @@ def descParseRgb8 (sc : Pen.Scanf) (o : PenObj) (a : PenAttr) (desc : List UInt8
     | none => (true, o.thaw)
   | none => (true, o.thaw)
 
-def setColourAttrDesc (sc : Pen.Scanf) (o : PenObj) (a : PenAttr) (desc0 : List UInt8) : Bool × PenObj :=
-  let isHi := desc0.take 3 == Pen.hiPrefix
-  let desc := if isHi then desc0.drop 3 else desc0
-  let hi : Int := if isHi then 8 else 0
+def descCore (sc : Pen.Scanf) (o : PenObj) (a : PenAttr) (desc : List UInt8) (hi : Int) : Bool × PenObj :=
   let hashp : Option Nat := desc.findIdx? (· == 35)
   let len : Nat := match hashp with
     | some k => Pen.trimLen desc k
@@ -572,6 +625,10 @@ def setColourAttrDesc (sc : Pen.Scanf) (o : PenObj) (a : PenAttr) (desc0 : List 
       let val := if e.2 < 8 ∧ hi ≠ 0 then e.2 + hi else e.2
       descParseRgb8 sc (o.freeze.setColourAttr a val) a desc hashp
     | none => (false, o)
+
+def setColourAttrDesc (sc : Pen.Scanf) (o : PenObj) (a : PenAttr) (desc0 : List UInt8) : Bool × PenObj :=
+  if desc0.take 3 == Pen.hiPrefix then descCore sc o a (desc0.drop 3) 8
+  else descCore sc o a desc0 0
 
 /-- `tickit_pen_set_colour_attr_desc` with an attribute value that is no enumerator: the setters do
     nothing, but the string is still parsed and decides the return value. -/
@@ -641,6 +698,13 @@ def copyAttr (dst src : PenDict) (a : PenAttr) : PenDict := dst.set a (src.read 
 def equiv (d1 d2 : PenDict) : Bool := PenAttr.all.all (fun a => d1.read a == d2.read a)
 
 end PenDict
+
+/-- What attribute `x` reads as through the getter(s) of its own type (each getter applies its own default). -/
+def Pen.typedRead (p : Pen) (x : PenAttr) : PenVal :=
+  match x.type with
+  | .bool => .b (p.getBoolAttr x)
+  | .int => .i (p.getIntAttr x)
+  | .colour => .c (p.getColourAttr x) (if p.hasColourAttrRgb8 x then some (p.getColourAttrRgb8 x) else none)
 
 /-- The abstraction function: the dictionary a pen value denotes. -/
 def Pen.abs (p : Pen) : PenDict := fun a =>
